@@ -451,7 +451,13 @@ static void emit_factored(Rng & rng, int nsamples) {
     auto dy = [&]() { return (double)rng.range(1, 6) / 16.0; };
     const double pf = dy(), pfb = dy(), pd = dy(), pdb = dy(), pl = dy(), pg = dy() + 0.5, pff = dy();
     AI::Seeder::setRootSeed(root);
-    auto model = rng.coin() ? FM::makeSysAdminUniRing(agents, pf, pfb, pd, pdb, pl, pg, pff) : FM::makeSysAdminBiRing(agents, pf, pfb, pd, pdb, pl, pg, pff);
+    // four topologies: the number of parents per feature (and so the shape of the DDN row ids) differs
+    int topo = (int)rng.below(8);
+    if (topo == 7 && !rng.coin(1, 4)) topo = 6;      // the 3x3 torus is large (18 features with 5 parents): keep it rare
+    std::printf("#stat coop_topology_%s 1\n", topo == 6 ? "grid" : topo == 7 ? "torus" : (topo & 1) ? "biring" : "uniring");
+    auto model = topo == 6 ? FM::makeSysAdminGrid(2, (unsigned)rng.range(2, 3), pf, pfb, pd, pdb, pl, pg, pff)
+               : topo == 7 ? FM::makeSysAdminTorus(3, 3, pf, pfb, pd, pdb, pl, pg, pff)   // a torus needs at least 3 per side (2 makes both neighbours the same machine: rejected by DDNGraph)
+               : (topo & 1) ? FM::makeSysAdminBiRing(agents, pf, pfb, pd, pdb, pl, pg, pff) : FM::makeSysAdminUniRing(agents, pf, pfb, pd, pdb, pl, pg, pff);
     AI::Seeder::setRootSeed(root);
     std::mt19937 mir(AI::Seeder::getSeed());
     std::uniform_real_distribution<double> d01(0.0, 1.0);
@@ -476,7 +482,7 @@ static void emit_factored(Rng & rng, int nsamples) {
         }
         l.nums(us); l << model.getExpectedReward(s, a, s1) << "|"; l.nats(s1); l << rew; l.emit();
         // exact tie of the whole composition: graph (parent sets), every transition matrix, every reward basis
-        if (t < 2) {
+        if (t < (topo >= 6 ? 1 : 2)) {
             Line x; x << "C08" << "coop" << (srs ? "srs" : "sr"); x.nats(S); x.nats(A);
             const auto & ps = model.getGraph().getParentSets();
             x << (size_t)ps.size();
